@@ -290,6 +290,7 @@ int ABT_future_set(ABT_future future, void *value)
     counter++;
     /* Call a callback function before setting the counter. */
     if (counter == num_compartments && p_future->p_callback != NULL) {
+        ABTI_VERIF_COV(ABTI_VERIF_C_FUTURE_CALLBACK);
         (*p_future->p_callback)(p_future->array);
     }
 
